@@ -80,7 +80,15 @@ def one_history(chk, sess, lines, tag, origin):
     wd = os.path.join(TMP, tag)
     rc, out, err, sp, tp = E.run_impl(sess.drv, lines, wd, env=ENV)
     if rc != 0:
-        chk.violation("driver-crash", "engine_driver exited with status %s" % rc, dict(scenario=lines, stderr=err[-2000:], origin=origin), found_input=True)
+        # classify with the model: fault 8 = a build returned success while rules were left IsScanning (their scan records are freed);
+        # the implementation then crashes in a later build
+        mo = sess.model.run(sp, tp)
+        if "MODEL-FAULT 8" in mo:
+            chk.violation("stale-scan-after-success", "a build returned success leaving rules IsScanning (scan cycle reached only through a discovered dependency "
+                          "of a completed task); a later build on the same engine crashed with status %s" % rc,
+                          dict(scenario=lines, implementation=out, model=mo, origin=origin), found_input=True, broken="executeTasks stall test (only the requested rule is tested for IsScanning)")
+        else:
+            chk.violation("driver-crash", "engine_driver exited with status %s" % rc, dict(scenario=lines, stderr=err[-2000:], origin=origin), found_input=True)
         return False
     # oracle O on the implementation alone
     bad = []
@@ -93,6 +101,10 @@ def one_history(chk, sess, lines, tag, origin):
                       dict(scenario=lines, implementation=out, origin=origin), found_input=True, broken="task protocol / at-most-once on the implementation")
         return False
     mo = sess.model.run(sp, tp)
+    if "MODEL-FAULT 8" in mo:
+        # stale IsScanning after a successful build that no later build of this history touches: no observable difference
+        chk.notes["stale_scanning_after_success (model fault 8, no crash in this history)"] = chk.notes.get("stale_scanning_after_success (model fault 8, no crash in this history)", 0) + 1
+        mo = [x for x in mo if x != "MODEL-FAULT 8"]
     nexec = sum(1 for x in out if x.startswith("create "))
     ncyc = sum(1 for x in out if x.startswith("cycle"))
     nwait = sum(1 for x in out if x == "wait")
